@@ -1,4 +1,5 @@
 import DimodModel.Cpp
+import DimodModel.CppCover
 import DimodModel.Wire
 open Wire
 
@@ -50,7 +51,7 @@ def parseRows (s : String) : Option (List (List (Nat × Rat))) :=
       | _ => none
 
 /-- result: new slots and the names whose states are reported; `none` = not modelled -/
-def step (s : Slots) (ws : List String) : Option (Slots × List String) :=
+def stepCore (s : Slots) (ws : List String) : Option (Slots × List String) :=
   let one (x : String) (m : CppM) : Option (Slots × List String) := some (put s x m, [x])
   match ws with
   | ["load", x, bvt, _n, off, lin, adj, vts, lb, ub] => do
@@ -131,6 +132,13 @@ def step (s : Slots) (ws : List String) : Option (Slots × List String) :=
   | ["eq", x, y] => if x = y then one x (get s x) else some (s, [x, y])
   | ["qmfrombqm", x, y] | ["qmfrombqmf", x, y] => some (put s x (get s y).qmFromBqm, [x, y])
   | _ => none
+
+/-- only `load` and the tokens of `Cpp.driverOps` (the list the coverage theorem `C20.abc_mutators_covered` speaks about)
+    are executed; everything else is answered `skip` -/
+def step (s : Slots) (ws : List String) : Option (Slots × List String) :=
+  match ws with
+  | w :: _ => if w = "load" || Cpp.driverOps.contains w then stepCore s ws else none
+  | [] => none
 
 partial def loop (h : IO.FS.Stream) (s : Slots) : IO Unit := do
   let line ← h.getLine
